@@ -16,6 +16,7 @@ import Mathlib.Tactic.FieldSimp
 import Mathlib.Tactic.Ring
 import Mathlib.Algebra.CharZero.Defs
 import EasyMl.Lemmas.StatsReal
+import EasyMl.Lemmas.StatsNatural
 
 namespace EasyMl.C14
 open EasyMl EasyMl.Stats EasyMl.Spec.Stats
@@ -236,6 +237,91 @@ theorem cov_tensor_eq_matrix [DivisionRing K] {ν : Type} [DecidableEq ν] (iNam
   · intro d0 d1 hs h0 h1
     unfold covarianceTensor
     simp [hs, h0, h1]
+
+/-! ### Naturality in the element type; lazy views -/
+
+/-- **The statistics are natural in the element type.**  For any map `φ` between element types
+    that commutes with `+ − × ÷ 0 1` and the image of the naturals (`StatsHom φ`; for softmax with
+    `+ − ÷ 0 exp` and `<`, `SoftmaxHom φ`), computing a statistic of the images gives the image of
+    the statistic — value or rejection, every length, size and shape, every entry: mean,
+    variance, both matrix covariances, the tensor covariance (any view, either feature position)
+    and softmax.  The routines are generic: they cannot do at one element type (`Trace`, `Record`,
+    a user type) anything they do not do at another. -/
+theorem stats_natural {α β : Type} [Add α] [Sub α] [Mul α] [Div α] [Zero α] [One α] [NatCast α]
+    [Add β] [Sub β] [Mul β] [Div β] [Zero β] [One β] [NatCast β] {φ : α → β} (h : StatsHom φ) :
+    (∀ l : List α, mean (l.map φ) = omap φ (mean l)) ∧
+    (∀ l : List α, variance (l.map φ) = omap φ (variance l)) ∧
+    (∀ m : Matrix α, covarianceColumnFeatures (mapMatrix φ m)
+        = omap (mapMatrix φ) (covarianceColumnFeatures m)) ∧
+    (∀ m : Matrix α, covarianceRowFeatures (mapMatrix φ m)
+        = omap (mapMatrix φ) (covarianceRowFeatures m)) ∧
+    (∀ {ν : Type} [DecidableEq ν] (iName jName : ν) (v : Arith.TView ν α) (feature : ν),
+      covarianceTensor iName jName (mapView φ v) feature
+        = omap (mapTensor φ) (covarianceTensor iName jName v feature)) ∧
+    (∀ p r : α, f1Score (φ p) (φ r) = φ (f1Score p r)) :=
+  ⟨mean_map h, variance_map h, covarianceColumnFeatures_map h, covarianceRowFeatures_map h,
+    fun iName jName v feature => covarianceTensor_map h iName jName v feature,
+    fun p r => by simp only [f1Score, h.mul, h.div, h.add, h.one]⟩
+
+/-- softmax is natural as well (`exp` and the `max_by` comparisons must commute with the map). -/
+theorem softmax_natural {α β : Type} [Add α] [Sub α] [Div α] [Zero α] [RealFns α] [NumOrd α]
+    [Add β] [Sub β] [Div β] [Zero β] [RealFns β] [NumOrd β] {φ : α → β} (h : SoftmaxHom φ)
+    (l : List α) : softmax (l.map φ) = (softmax l).map φ :=
+  softmax_map h l
+
+/-- **Over `Trace<T>` / `Record<T>` elements the value of a statistic is the statistic of the
+    values**: for dual numbers over any element type `R` (`Dual R`, the model of `Trace<T>` and of
+    the value-with-derivative reading of `Record<T>`), the number parts of mean, variance, every
+    covariance and softmax of the inputs are those statistics of the inputs' number parts —
+    whatever the derivative parts, and whichever inputs are constants. -/
+theorem stats_over_trace {R : Type} [Add R] [Sub R] [Mul R] [Div R] [Neg R] [Zero R] [One R]
+    [NatCast R] :
+    (∀ l : List (Dual R), mean (l.map Dual.number) = omap Dual.number (mean l)) ∧
+    (∀ l : List (Dual R), variance (l.map Dual.number) = omap Dual.number (variance l)) ∧
+    (∀ m : Matrix (Dual R), covarianceColumnFeatures (mapMatrix Dual.number m)
+        = omap (mapMatrix Dual.number) (covarianceColumnFeatures m)) ∧
+    (∀ m : Matrix (Dual R), covarianceRowFeatures (mapMatrix Dual.number m)
+        = omap (mapMatrix Dual.number) (covarianceRowFeatures m)) ∧
+    (∀ {ν : Type} [DecidableEq ν] (iName jName : ν) (v : Arith.TView ν (Dual R)) (feature : ν),
+      covarianceTensor iName jName (mapView Dual.number v) feature
+        = omap (mapTensor Dual.number) (covarianceTensor iName jName v feature)) ∧
+    (∀ [RealFns R] [NumOrd R] (l : List (Dual R)),
+      softmax (l.map Dual.number) = (softmax l).map Dual.number) := by
+  obtain ⟨h1, h2, h3, h4, h5, _⟩ := stats_natural (dualNumber_statsHom (R := R))
+  exact ⟨h1, h2, h3, h4, fun iName jName v feature => h5 iName jName v feature,
+    fun l => softmax_map dualNumber_softmaxHom l⟩
+
+/-- Non-vacuity: the identity is such a map, and so is the number part of a dual number over the
+    prime field of the correspondence runs. -/
+example : StatsHom (id : ℚ → ℚ) ∧ StatsHom (Dual.number : Dual ℚ → ℚ) :=
+  ⟨⟨rfl, rfl, fun _ _ => rfl, fun _ _ => rfl, fun _ _ => rfl, fun _ _ => rfl, fun _ => rfl⟩,
+    dualNumber_statsHom⟩
+
+/-- **The tensor covariance depends only on the logical data its input shows**: two well-formed
+    views with the same shape and the same element at every in-range index — a plain tensor, a
+    lazily reordered view (`TensorAccess`, `TensorTranspose`), a range, mask, reversal or rename of
+    a larger tensor, however laid out in memory or iterated — give the same outcome; in particular
+    a lazy view gives what the tensor collected from it gives.  (This is the statement a
+    "memory order" fast path falsifies.) -/
+theorem covariance_congr {ν : Type} [DecidableEq ν] {α : Type}
+    [Add α] [Sub α] [Mul α] [Div α] [Zero α] [NatCast α]
+    (iName jName : ν) (hij : iName ≠ jName) (v : Arith.TView ν α) (hv : v.WF) (feature : ν) :
+    (∀ w : Arith.TView ν α, Arith.TView.Same v w →
+      covarianceTensor iName jName v feature = covarianceTensor iName jName w feature) ∧
+    covarianceTensor iName jName v feature
+      = covarianceTensor iName jName (Arith.TView.ofTensor v.materialise) feature :=
+  ⟨fun _ hvw => covarianceTensor_congr iName jName hij hv hvw feature,
+    covarianceTensor_congr iName jName hij hv hv.materialise_same feature⟩
+
+/-- Non-vacuity: a concrete well-formed view and a second view showing the same data (the tensor
+    collected from it) satisfy the hypotheses of `covariance_congr`. -/
+example :
+    ∃ t : Tensor String ℚ, Tensor.tryFrom [("s", 3), ("f", 2)] [1, 2, 3, 6, 5, 1] = some t ∧
+      (Arith.TView.ofTensor t).WF ∧
+      Arith.TView.Same (Arith.TView.ofTensor t) (Arith.TView.ofTensor (Arith.TView.ofTensor t).materialise) := by
+  have hv := (Arith.tryFrom_valid (shape := [("s", 3), ("f", 2)])
+    (data := ([1, 2, 3, 6, 5, 1] : List ℚ)) rfl).1
+  exact ⟨_, rfl, Arith.ofTensor_WF hv, (Arith.ofTensor_WF hv).materialise_same⟩
 
 /-! ### softmax (over ℝ, `exp` = `Real.exp`) -/
 
